@@ -44,6 +44,9 @@ type c16run struct {
 	cands  map[string]*c16Cand
 	order  []string
 	blocks map[string]*lpb.InternalBlock
+
+	vc       *c16VC             // xpoa run with on-chain validator changes (nil: none)
+	extraTxs []*lpb.Transaction // transactions the next candidate carries besides its award
 }
 
 // c16Cand is what the harness knows about a candidate block it built.
@@ -64,6 +67,10 @@ type c16Cand struct {
 	ByClaimed  uint32 // bits the same computation yields for the claimed height
 	PreErr     bool
 	Judged     bool
+	// xpoa with validator changes
+	Adm    []c16Epoch // validator lists that may govern the block's height (one: unambiguous)
+	EntAll []string   // the producer the reference rotation entitles at Ts under each of them
+	Edit   bool       // the block carries an editValidates transaction
 }
 
 func (r *c16run) viol(clause, format string, a ...interface{}) *Violation {
@@ -179,7 +186,8 @@ func (r *c16run) rpc(from *Node, msg *pb.XuperMessage) []*pb.XuperMessage {
 	}
 	r.rc.St.Probes["acc-ancestor-fetched"]++
 	out := &xpb.BlockInfo{Block: CloneBlock(blk)}
-	return []*pb.XuperMessage{p2p.NewMessage(pb.XuperMessage_GET_BLOCK_RES, out, p2p.WithBCName("xuper"))}
+	// (a response counts only when its header says SUCCESS; NewMessage's default is NONE)
+	return []*pb.XuperMessage{p2p.NewMessage(pb.XuperMessage_GET_BLOCK_RES, out, p2p.WithBCName("xuper"), p2p.WithErrorType(pb.XuperMessage_SUCCESS))}
 }
 
 // ---- the schedule as the code under test labels it -----------------------------------------------
@@ -234,6 +242,9 @@ func (r *c16run) execTile() *Violation {
 		start = r.epochMs + p.BaseMs
 	}
 	at := func(t int64) int64 { return t*1e6 + p.SubNs }
+	if r.kind == "xpoa" && len(p.VC) > 0 {
+		r.vcTilePrepare()
+	}
 	l0 := r.label(at(start))
 	firstFull, lastFull := l0.Term+1, l0.Term+int64(p.Terms)
 	if r.kind == "tdpos" {
@@ -284,12 +295,23 @@ func (r *c16run) execTile() *Violation {
 	}
 	cands := append([]string{}, r.valAddrs...)
 	cands = append(cands, r.ids[len(r.valAddrs)].Addr)
+	if r.vc != nil {
+		// every identity of the pool: the replaced validators are the interesting outsiders
+		cands = cands[:len(r.valAddrs)]
+		for _, a := range r.ids[len(r.valAddrs):] {
+			cands = append(cands, a.Addr)
+		}
+	}
+	height := p.Height
+	if r.vc != nil {
+		height = r.tipOf(r.r).Height + 1
+	}
 	samples := make([]c16Sample, 0, len(ts))
 	nobody := 0
 	for _, t := range ts {
 		sm := c16Sample{T: t, Lab: r.label(at(t))}
 		for _, c := range cands {
-			if r.probe(at(t), c, p.Height) {
+			if r.probe(at(t), c, height) {
 				sm.Acc = append(sm.Acc, c)
 			}
 		}
@@ -319,6 +341,9 @@ func (r *c16run) execTile() *Violation {
 	if r.kind == "xpoa" {
 		cfgKey = fmt.Sprintf("xpoa %d/%d/%d sub%d base%d full%v", s.Period, s.BlockNum, s.NVal, p.SubNs, p.BaseMs, p.Full)
 	}
+	if r.vc != nil {
+		cfgKey += fmt.Sprintf(" changed to %v at height %d, swept at height %d, cached %d", c16Shorts(r.valAddrs), r.vc.epochs[len(r.vc.epochs)-1].H, height, len(xpoa.XsimValidators(r.plug)))
+	}
 	r.rc.St.States[cfgKey] = true
 	r.logf("%s: %d instants %d boundaries %d nobody", cfgKey, len(samples), len(bounds), nobody)
 	h := sha256.New()
@@ -327,6 +352,9 @@ func (r *c16run) execTile() *Violation {
 	}
 	r.logf("sweep digest %s", hex.EncodeToString(h.Sum(nil)[:8]))
 	if clause, msg := c16TileOracle(samples, r.valAddrs, s.BlockNum, s.Period, firstFull, lastFull); clause != "" {
+		if r.vc != nil {
+			return r.viol(clause, "xpoa config %+v (sub-ms %d ns), validator list %v installed on chain at height %d and swept for blocks of height %d (the node schedules %d cached validators): %s", *s, p.SubNs, c16Shorts(r.valAddrs), r.vc.epochs[len(r.vc.epochs)-1].H, height, len(xpoa.XsimValidators(r.plug)), msg)
+		}
 		return r.viol(clause, "%s config %+v (sub-ms %d ns, height %d): %s", r.kind, *s, p.SubNs, p.Height, msg)
 	}
 	// observation only (the statement is silent about instants before the schedule's init time)
@@ -428,9 +456,31 @@ func (r *c16run) findTs(st *C16Step, parent *lpb.InternalBlock, cursor *int64) i
 // buildCand builds a candidate on the builder's state tip.
 func (r *c16run) buildCand(st *C16Step, cursor *int64) *c16Cand {
 	parent := r.tipOf(r.b)
+	var adm []c16Epoch
+	if r.vc != nil {
+		// the builder follows one of the lists that may govern the new block's height
+		adm = c16Admissible(r.vc.epochs, parent.Height+1)
+		basis := adm[0]
+		if st.SetSel == 1 {
+			basis = adm[len(adm)-1]
+		}
+		r.setBasis(basis.Set)
+	}
 	ts := r.findTs(st, parent, cursor)
 	lab := r.label(ts)
 	c := &c16Cand{Step: r.step, Ts: ts, ParentTs: parent.Timestamp, TrueHeight: parent.Height + 1}
+	if r.vc != nil {
+		c.Adm = adm
+		for _, e := range adm {
+			c.EntAll = append(c.EntAll, c16RefXpoaEntitled(ts, r.p.Sch.Period, r.p.Sch.BlockNum, e.Set))
+		}
+		c.Edit = len(r.extraTxs) > 0
+		if ts >= 0 && lab.Who != c16RefXpoaEntitled(ts, r.p.Sch.Period, r.p.Sch.BlockNum, r.valAddrs) {
+			// (the tiling sweep is the judge of the rotation itself; here the two only have to agree
+			// for the builder's "entitled producer" to be the oracle's)
+			r.rc.St.Probes["xpoa-label-differs-from-reference"]++
+		}
+	}
 	if lab.Valid {
 		c.Entitled = lab.Who
 	}
@@ -459,7 +509,8 @@ func (r *c16run) buildCand(st *C16Step, cursor *int64) *c16Cand {
 	case 3:
 		c.SigDamaged = true
 	}
-	blk, err := r.b.PackBlock(MineOpts{Proposer: c.Proposer, Timestamp: ts, MaxTx: 0})
+	blk, err := r.b.PackBlock(MineOpts{Proposer: c.Proposer, Timestamp: ts, MaxTx: 0, Txs: r.extraTxs})
+	r.extraTxs = nil
 	if err != nil {
 		panic(fmt.Sprintf("c16: pack: %v", err))
 	}
@@ -613,11 +664,19 @@ func (r *c16run) execAcc() *Violation {
 		cursor = r.initNs / 1e6
 	}
 	r.rc.St.States[fmt.Sprintf("%s %+v %+v", r.kind, p.Sch, p.Pow)] = true
+	if r.kind == "xpoa" && len(p.VC) > 0 {
+		r.vcInit()
+	}
 	held := 0
 	for i := range p.Steps {
 		st := &p.Steps[i]
 		r.step = i
 		r.rc.St.Steps++
+		if r.vc != nil && held == 0 {
+			if v := r.vcEvents(i, &cursor); v != nil {
+				return v
+			}
+		}
 		time.Sleep(time.Millisecond) // award transactions are stamped by the clock: it never stands still between two candidates
 		c := r.buildCand(st, &cursor)
 		blk := r.blocks[string(c.ID)]
@@ -631,49 +690,67 @@ func (r *c16run) execAcc() *Violation {
 			r.rc.St.Probes["builder-apply-failed"]++
 			r.resync()
 		}
-		if st.SkewMs > 0 {
-			time.Sleep(time.Duration(st.SkewMs) * time.Millisecond)
-			r.rc.St.Faults["receiver-clock-jump"]++
-		}
-		now := time.Now().UnixNano()
-		if d := c.Ts - now; d > int64(time.Second) || d < -int64(time.Second) {
-			r.rc.St.Faults["receiver-clock-skewed-vs-block"]++
-		}
-		err, pan := r.procBlock(blk)
-		if pan != "" {
-			if r.kind == "xpoa" && c.Ts < 0 {
-				// exactly: a block carrying a negative timestamp makes the xpoa schedule index its
-				// validator list with a negative position
-				return r.viol("xpoa-negative-timestamp-panics", "delivering block %s (timestamp %d ns) to an xpoa node panics inside CheckMinerMatch: %s", hx(c.ID), c.Ts, pan)
-			}
-			panic(pan)
-		}
-		r.rc.BG = nil
-		r.logf("procblock %s -> refused=%v stored=%v (%v)", hx(c.ID), err != nil, r.r.L.ExistBlock(c.ID), err)
-		if held > 0 {
-			r.rc.St.Probes["acc-delivered-through-sync-path"]++
-		}
-		held = 0
-		if v := r.judgeAll(); v != nil {
+		if v := r.deliver(c, st, held, &cursor); v != nil {
 			return v
 		}
-		// the builder follows the receiver
-		if tip := r.r.L.GetMeta().TipBlockid; !r.b.L.ExistBlock(tip) {
-			path := [][]byte{}
-			for id := tip; !r.b.L.ExistBlock(id); {
-				path = append(path, id)
-				id = r.blocks[string(id)].PreHash
-			}
-			for j := len(path) - 1; j >= 0; j-- {
-				if st := r.b.L.ConfirmBlock(CloneBlock(r.blocks[string(path[j])]), false); !st.Succ {
-					panic(fmt.Sprintf("c16: builder cannot follow: %v", st.Error))
-				}
+		held = 0
+	}
+	return nil
+}
+
+// deliver hands a candidate to the receiving node (after `held` undelivered ancestors: through the
+// sync path), judges whatever the receiver stored and lets the builder follow the receiver.
+func (r *c16run) deliver(c *c16Cand, st *C16Step, held int, cursor *int64) *Violation {
+	blk := r.blocks[string(c.ID)]
+	if st.SkewMs > 0 {
+		time.Sleep(time.Duration(st.SkewMs) * time.Millisecond)
+		r.rc.St.Faults["receiver-clock-jump"]++
+	}
+	now := time.Now().UnixNano()
+	if d := c.Ts - now; d > int64(time.Second) || d < -int64(time.Second) {
+		r.rc.St.Faults["receiver-clock-skewed-vs-block"]++
+	}
+	err, pan := r.procBlock(blk)
+	if pan != "" {
+		if r.kind == "xpoa" && c.Ts < 0 {
+			// exactly: a block carrying a negative timestamp makes the xpoa schedule index its
+			// validator list with a negative position
+			return r.viol("xpoa-negative-timestamp-panics", "delivering block %s (timestamp %d ns) to an xpoa node panics inside CheckMinerMatch: %s", hx(c.ID), c.Ts, pan)
+		}
+		panic(pan)
+	}
+	r.rc.BG = nil
+	r.logf("procblock %s -> refused=%v stored=%v (%v)", hx(c.ID), err != nil, r.r.L.ExistBlock(c.ID), err)
+	if held > 0 {
+		r.rc.St.Probes["acc-delivered-through-sync-path"]++
+	}
+	if r.vc != nil {
+		r.vc.lastErr = fmt.Sprint(err)
+	}
+	if v := r.judgeAll(); v != nil {
+		return v
+	}
+	// the builder follows the receiver
+	if r.vc != nil && c.Edit && r.r.L.ExistBlock(c.ID) {
+		// (a builder that replayed the change itself would judge its authorisation by its own
+		// cached list: it restarts on a copy of the receiver's disk instead)
+		r.vcCloneBuilder()
+	}
+	if tip := r.r.L.GetMeta().TipBlockid; !r.b.L.ExistBlock(tip) {
+		path := [][]byte{}
+		for id := tip; !r.b.L.ExistBlock(id); {
+			path = append(path, id)
+			id = r.blocks[string(id)].PreHash
+		}
+		for j := len(path) - 1; j >= 0; j-- {
+			if st := r.b.L.ConfirmBlock(CloneBlock(r.blocks[string(path[j])]), false); !st.Succ {
+				panic(fmt.Sprintf("c16: builder cannot follow: %v", st.Error))
 			}
 		}
-		r.resync()
-		if t := r.tipOf(r.b).Timestamp / 1e6; t >= cursor && (r.kind == "tdpos" || r.kind == "xpoa") {
-			cursor = t + 1
-		}
+	}
+	r.resync()
+	if t := r.tipOf(r.b).Timestamp / 1e6; t >= *cursor && (r.kind == "tdpos" || r.kind == "xpoa") {
+		*cursor = t + 1
 	}
 	return nil
 }
@@ -715,6 +792,11 @@ func (r *c16run) judgeAll() *Violation {
 		} else {
 			r.rc.St.Probes["acc-bad-refused"]++
 		}
+		if r.vc != nil {
+			if v := r.vcRefused(c); v != nil {
+				return v
+			}
+		}
 	}
 	return nil
 }
@@ -730,6 +812,15 @@ func (r *c16run) honest(c *c16Cand) bool {
 	case "pow":
 		return c.Bits == c.Prescribed && c.Ts >= c.ParentTs
 	}
+	if r.vc != nil {
+		// entitled whichever admissible list governs the block
+		for _, e := range c.EntAll {
+			if e == "" || e != c.Proposer.Addr {
+				return false
+			}
+		}
+		return true
+	}
 	return c.Entitled == c.Proposer.Addr
 }
 
@@ -744,6 +835,9 @@ func (r *c16run) judge(c *c16Cand) *Violation {
 	desc := fmt.Sprintf("block %s (step %d, proposer %s, signed by %s, carrying the public key of %s, damaged signature %v, timestamp %d ns, claimed height %d, true height %d)", hx(c.ID), c.Step, shortAddr(c.Proposer.Addr), shortAddr(c.Signer.Addr), shortAddr(c.PubOf.Addr), c.SigDamaged, c.Ts, c.Claimed, c.TrueHeight)
 	switch r.kind {
 	case "tdpos", "xpoa":
+		if r.vc != nil {
+			return r.vcAccepted(c, blk, desc)
+		}
 		if c.Entitled == "" {
 			return r.viol("accepted-in-nobody-slot", "%s: %s accepted although the schedule names no producer at its timestamp", r.kind, desc)
 		}
